@@ -304,6 +304,8 @@ void MasterMS<Scalar>::init_mms(const std::string& my_name,
   std::string mapped_name = masa_name;
   MASA::masa_map(&mapped_name);
 
+  manufactured_solution<Scalar>* selected = NULL;
+
   for (unsigned int i=0; i != anim.size(); ++i)
     {
       std::string name;
@@ -313,13 +315,21 @@ void MasterMS<Scalar>::init_mms(const std::string& my_name,
           std::cout << "MASA FATAL ERROR:: manufactured solution has no name!\n";
           masa_exit(1);
         }
-      if (name == mapped_name)
-        {
-          _master_map[my_name] = _master_pointer = anim[i];
-          return;
-        }
+      if (selected == NULL && name == mapped_name)
+        selected = anim[i]; // keep the first match
       else
-        delete anim[i];
+        delete anim[i];     // release every other candidate
+    }
+
+  if (selected != NULL)
+    {
+      // release the solution previously registered under this handle, if any
+      typename std::map<std::string, manufactured_solution<Scalar> *>::iterator it=_master_map.find(my_name);
+      if(it != _master_map.end())
+        delete it->second;
+
+      _master_map[my_name] = _master_pointer = selected;
+      return;
     }
 
   std::cout << "MASA FATAL ERROR:: no manufactured solution named " << masa_name << " found!\n";
